@@ -365,6 +365,8 @@ func Run(args []string) int {
 					emit(out, id, execAggCase(svcTM(), cur))
 				} else if isSvc(cur) {
 					emit(out, id, watchdog(out, id, cur))
+				} else if isK(cur) {
+					emit(out, id, kWatchdog(out, id, cur))
 				} else {
 					emit(out, id, execCase(cur))
 				}
@@ -381,6 +383,17 @@ func Run(args []string) int {
 			size = 40 + r.Intn(60) // long histories: > 12 states never happens (≤ 5 ids), but many re-sorts
 		}
 		emit(out, fmt.Sprintf("g%d", i), execCase(genCase(r.Fork(), size)))
+	}
+	// concurrent cases on the real alert.Topics: gated handlers with a backlog, a removal in progress (draining) and
+	// operations issued meanwhile (own random stream: the other cases of a seed stay what they were)
+	nk := f.N / 3
+	if f.Tier == "thorough" {
+		nk = f.N / 2
+	}
+	kr := kit.NewRand(f.Seed*7919 + 17)
+	for i := 0; i < nk; i++ {
+		id := fmt.Sprintf("k%d", i)
+		emit(out, id, kWatchdog(out, id, genKCase(kr.Fork())))
 	}
 	// service layer: real services/alert.Service with publish/match handler specs
 	nsvc := f.N / 2
